@@ -2,8 +2,12 @@ CFG = {
     "id": "C01",
     "lean_theorems": "LeptosModel.Theorems.C01",
     "lean_exe": "lm_c01",
-    "theorems": [],
-    "level": "translation_validation",
+    "theorems": [
+        "Leptos.Reactive.C01_read_eq_scratch_noeff",
+        "Leptos.Reactive.C01_scratch_fuel_irrelevant",
+        "Leptos.Reactive.upd_ok",
+        "Leptos.Reactive.read_eq_scratch_noeff",
+    ],
     "harness_pkg": "hx-c01",
     "harness_bin": "c01",
     "n": {"quick": 3000, "thorough": 60000},
@@ -17,14 +21,17 @@ CFG = {
     "assumptions": ["i64 arithmetic does not overflow on generated programs (small constants, bounded depth)",
                     "derived signals / MappedSignal / Signal::derive are plain closures without cache: they are from-scratch by construction and are not separately modelled"],
     "manifest": {
-        "category": "translation_validation",
-        "text": "Executable Lean model of the memo protocol (Model/Reactive.lean), differentially validated against the real "
-                "ArcMemo/Memo/ArcRwSignal/RwSignal on generated programs and histories (every read compared with the model, with an independent "
-                "from-scratch evaluator and with the 'last run is current' oracle). The unbounded theorem C01_read_eq_scratch (invariant over the "
-                "mark/check/pull protocol) is stated in Theorems/C01.lean and its proof is under construction in Proofs/Reactive*.lean; "
-                "until it is kernel-checked this check claims translation validation only, not proof.",
+        "category": "proof",
+        "text": "Lean 4 theorem C01_read_eq_scratch_noeff: for EVERY well-formed program of signals and memos with tracked reads (any DAG: diamonds, "
+                "chains, conditional/dynamic dependencies, equality cut-offs, memos read inside memos) and EVERY finite history of writes (equal values "
+                "included) and reads in any order, a read returns the from-scratch value - proved by an invariant over the mark-dirty/mark-check/pull "
+                "protocol (InvR) and a big-step lemma for update_if_necessary (upd_ok), ~2800 lines, no sorry, axioms propext/Classical.choice/Quot.sound. "
+                "The model is tied to the real ArcMemo/Memo/ArcRwSignal/RwSignal by a differential run on generated programs and histories (every read "
+                "compared with the model, with an independent from-scratch evaluator and with the 'last run is current' oracle). Programs with untracked "
+                "reads (snapshot semantics) and graphs that also contain effects are covered by the correspondence; their theorem is still open "
+                "(statement visible as C01_read_eq_scratch_stmt).",
         "design_ref": "DESIGN.md §7 C01",
-        "note": "model hand-written; theorem pending; correspondence on generated inputs only",
-        "technique": "Lean 4 executable model + differential correspondence (proof of the invariant in progress)",
+        "note": "hand-written model validated by correspondence on generated inputs; theorem restricted to tracked reads and effect-free programs",
+        "technique": "Lean 4 proof (invariant + induction over histories) + differential correspondence",
     },
 }
